@@ -7,7 +7,9 @@ use rustc_span::{BytePos, Ident, Pos, Span, symbol};
 use tracing::debug;
 
 use crate::attr::*;
-use crate::comment::{CodeCharKind, CommentCodeSlices, contains_comment, rewrite_comment};
+use crate::comment::{
+    CodeCharKind, CommentCodeSlices, contains_comment, recover_comment_removed, rewrite_comment,
+};
 use crate::config::{BraceStyle, Config, MacroSelector, StyleEdition};
 use crate::coverage::transform_missing_snippet;
 use crate::items::{
@@ -719,6 +721,9 @@ impl<'b, 'a: 'b> FmtVisitor<'a> {
             }
             _ => (mac.span(), rewrite),
         };
+        // A comment between the macro's path, its `!` and its delimiter is not part of any
+        // rewritten piece: keep the call as written rather than lose it.
+        let rewrite = rewrite.map(|rw| recover_comment_removed(rw, span, &self.get_context()));
 
         self.push_rewrite(span, rewrite);
     }
